@@ -619,14 +619,21 @@ static void x_once(const plan_t *p)
             case 7: break;
             }
             if (n > 600 && n < ((uint64_t)1 << 36)) n = 1 + n % 600;
-            if (n >= ((uint64_t)1 << 36)) n = (uint64_t)1 << 36;         /* honest ENOMEM, far over the budget */
+            /* >= 2^36 buckets: honest ENOMEM, far over the budget; the largest values make the byte count of the
+             * bucket array unrepresentable -- such a request cannot be satisfied either and must change nothing */
+            if (n >= ((uint64_t)1 << 36)) {
+                static const uint64_t big[] = { (uint64_t)1 << 36, (uint64_t)1 << 60, ((uint64_t)1 << 60) + 1, UINT64_MAX / 16, UINT64_MAX / 16 + 1,
+                                                (uint64_t)1 << 63, UINT64_MAX, UINT64_MAX - 1 };
+                n = big[(n >> 36) % (sizeof big / sizeof big[0])];
+                if (n > ((uint64_t)1 << 36)) { PROBE("resize_bucket_bytes_unrepresentable"); g_cur_ctx = "count-near-max"; }
+            }
             if ((p->mode == 19 || p->mode == 17) && !m->inited && fn == F_NULL) fn = F_DIV + (int)(o->a[1] % 5);
             if (!m->settled && m->inited) PROBE("resize_while_pending");
             TRY(cstl_hash_resize(&tb[t], (size_t)n, fn_ptr[fn]));
             if (c17_after(t, "resize")) return;
             if (g_aborted) VIOL(g_aborted == 2 ? "assert" : "abort", "resize aborted");
             check_m0(t);
-            satisfied = n >= 1 && !(g_hs.fired_in_op || g_hs.enomem_in_op);
+            satisfied = n >= 1 && !(g_hs.fired_in_op || g_hs.enomem_in_op) && n <= ((uint64_t)1 << 36);
             if (g_hs.fired_in_op) PROBE("resize_alloc_fail_fired");
             if (g_hs.enomem_in_op) PROBE("resize_enomem");
             if (satisfied) {
@@ -988,7 +995,7 @@ static void x_gen(prng_t *r, int mode, plan_t *p)
             o->a[0] = t;
             o->a[3] = prng_below(r, 8);
             o->a[1] = 1 + prng_below(r, maxb);
-            if (prng_chance(r, 1, 40)) o->a[1] = (uint64_t)1 << 40;      /* far over the heap budget */
+            if (prng_chance(r, 1, 40)) o->a[1] = ((uint64_t)1 << 36) * (1 + prng_below(r, 64));      /* over the heap budget / unrepresentable */
             if (prng_chance(r, 1, 30)) o->a[1] = 0;
             o->a[2] = prng_chance(r, 1, 2) ? 0 : prng_below(r, NFN);
             if (faults && prng_chance(r, 1, 4)) o->a[4] = 1;
